@@ -15,6 +15,7 @@ import Oas3Model.Driver.Cache
 import Oas3Model.Driver.Discr
 import Oas3Model.Driver.Valid
 import Oas3Model.Driver.Flags
+import Oas3Model.Driver.Inject
 open Lean Oas3.Driver
 
 def allOps : List (String × Handler) := List.flatten [
@@ -34,6 +35,7 @@ def allOps : List (String × Handler) := List.flatten [
   Oas3.Driver.Discr.ops,
   Oas3.Driver.Valid.ops,
   Oas3.Driver.Flags.ops,
+  Oas3.Driver.Inject.ops,
   []]
 
 def handleLine (line : String) : String :=
